@@ -1066,8 +1066,20 @@ def real_runs_interval(scs, count):
 # C12: Context constructors.  Both the expression as written and the graph the
 # Context actually built are evaluated with the full opcode specification.
 
-def eval_graph_spec(enc, lines, prefix):
+def eval_graph_spec(enc, lines, prefix, table=None, commute_minmax=False):
+    """`table` (shared between the two sides of a comparison) interns terms by their defining text, and the operands of
+    the commutative IEEE operations add / mul (one NaN in the FP theory, so exactly commutative) are put in a canonical
+    order: an expression and its operand-swapped form then become the *same* term instead of two 24x24-bit multiplier
+    circuits whose equivalence a SAT solver may or may not find in time."""
     vals = []
+
+    def define(text):
+        if table is None:
+            return enc.define(prefix, text)
+        if text not in table:
+            table[text] = enc.define(prefix, text)
+        return table[text]
+
     for line in lines:
         t = line.split()
         if t[0] == "in":
@@ -1075,10 +1087,13 @@ def eval_graph_spec(enc, lines, prefix):
         elif t[0] == "const":
             vals.append(X.bv(int(t[1], 16), 32))
         elif t[0] == "un":
-            vals.append(enc.define(prefix, spec_unary(enc, t[1], vals[int(t[2])])))
+            vals.append(define(spec_unary(enc, t[1], vals[int(t[2])])))
         elif t[0] == "bin":
-            v, _ = spec_binary(enc, t[1], vals[int(t[2])], vals[int(t[3])])
-            vals.append(enc.define(prefix, v))
+            a, b = vals[int(t[2])], vals[int(t[3])]
+            if table is not None and (t[1] in ("Add", "Mul") or (commute_minmax and t[1] in ("Min", "Max"))):
+                a, b = sorted((a, b), key=str)
+            v, _ = spec_binary(enc, t[1], a, b)
+            vals.append(define(v))
         else:
             raise X.Unsupported("graph line " + line)
     return vals
@@ -1098,13 +1113,26 @@ def check_construct(rec, solver):
     if not rec.get("dedup", True):
         out["problems"].append("building the same expression twice gave two different nodes")
     enc = Enc2(fp=True, mode="base")
-    ev = eval_graph_spec(enc, rec["expr"], "u")
-    gv = eval_graph_spec(enc, rec["graph"], "g")
-    want, got = ev[rec["expr_root"]], gv[rec["root"]]
-    pre = X.band(*[finite(v) for v in ev])
-    goal = "(and %s (not (fp.eq %s %s)))" % (pre, X.fp(got), X.fp(want))
+    def encode(commute_minmax):
+        e = Enc2(fp=True, mode="base")
+        table = {}
+        ev_ = eval_graph_spec(e, rec["expr"], "u", table, commute_minmax)
+        gv_ = eval_graph_spec(e, rec["graph"], "g", table, commute_minmax)
+        want, got = ev_[rec["expr_root"]], gv_[rec["root"]]
+        pre_ = X.band(*[finite(v) for v in ev_])
+        return e, pre_, "(and %s (not (fp.eq %s %s)))" % (pre_, X.fp(got), X.fp(want))
+
+    enc, pre, goal = encode(False)
     xs = sorted(c for c in enc.consts if c.startswith("x_"))
-    res, model = T.query(solver, enc, goal, xs, fallback_prelude=T.PRELUDE_FP)
+    res, model = T.query(solver, enc, goal, xs)
+    if res == "unknown":
+        # The constructors reorder the operands of min / max, whose results then differ at most in the sign of a zero
+        # (operands are not NaN under the finiteness premise) -- which the property exempts.  Deciding that through an
+        # outer multiplier means proving two different 24x24-bit circuits equivalent; reading min / max as commutative
+        # makes both sides the same term.  Used only when the exact query is undecided; counted in the evidence.
+        enc, pre, goal = encode(True)
+        res, model = T.query(solver, enc, goal, xs, fallback_prelude=T.PRELUDE_FP)
+        out["minmax_commuted"] = True
     out["status"] = res
     if res == "sat":
         out["model"] = model
